@@ -127,7 +127,9 @@ contract(M + "FortranReaderBase.get_source_item@cpp",
         "single_line_span": "implies(not old(self.filo_line)[len(old(self.filo_line)) - 1].rstrip().endswith('\\\\'), result.span[1] == result.span[0])",
     },
     raises={"FortranReaderError": {}, "AssertionError": {}},
-    loops={0: dict(invariant={"count": "self.linecount >= startlineno and startlineno == old(self.linecount) + 1 and INV_LC(self)"},
+    loops={0: dict(invariant={"count": "self.linecount >= startlineno and startlineno == old(self.linecount) + 1 and INV_LC(self)",
+                              "not_entered": "implies(len(lines) == 0, self.linecount == startlineno and line == old(self.filo_line)[len(old(self.filo_line)) - 1])",
+                              "entered_only_if_continued": "implies(len(lines) > 0, old(self.filo_line)[len(old(self.filo_line)) - 1].rstrip().endswith('\\\\'))"},
                    types={"line": "str?"})},
     locals=dict(lines="list[str]"),
     serves=["C12", "C14"],
